@@ -885,6 +885,10 @@ class Variable(CanBehaveLikeAVariable[T]):
                 self._domain_ = domain
             if isinstance(domain, SymbolicExpression):
                 new_domain = (v[domain._id_] for v in domain._evaluate__())
+                if isinstance(self._type_, type):
+                    # the values of an expression are filtered by the type of the variable like any supplied domain,
+                    # here because they only exist once the expression is evaluated.
+                    new_domain = filter(lambda v: isinstance(v.value, self._type_), new_domain)
             elif not is_iterable(domain):
                 new_domain = [HashedValue(domain)]
             new_domain = new_domain or domain
